@@ -57,7 +57,7 @@ func Verif_C07_split_exact() {
 	spendBefore := W.bank.SpendableCoins(ctx, verifAddr(c07From)).AmountOf(vDenom)
 	U := verif_int_range("U", "1", "1e30")
 	verif_assume(U.LTE(lockedBefore)) // any amount up to the locked, undelegated coins
-	verif_knob("assert_timeout_ms", 400000)
+	verif_knob("assert_timeout_ms", 120000)
 	_, err := NewMsgServerImpl(k).SplitVesting(sdk.WrapSDKContext(ctx), &types.MsgSplitVesting{FromAddress: c07From, ToAddress: c07To,
 		Amount: sdk.Coins{sdk.Coin{Denom: vDenom, Amount: U}}})
 	verif_assert(err == nil, "any amount up to the sender's locked, undelegated coins can be split")
